@@ -139,8 +139,11 @@ def sample_value(p, rng, mode, ctx):
     if p == "kappa":
         return rng.uniform(20, 50)
     if p == "a":
-        if rng.random() < 0.2:
+        r_ = rng.random()
+        if r_ < 0.2:
             return rng.choice([2.0, 3.0, 1.0])        # whole-number exponents (written a=2 by a user: see call_impl)
+        if r_ < 0.32:
+            return rng.uniform(0.5, 1.0)              # any positive exponent is a fundamental diagram
         return rng.uniform(1.2, 2.6)
     if p == "C":
         return rng.uniform(1500, 2500)
@@ -151,7 +154,7 @@ def sample_value(p, rng, mode, ctx):
     if p == "phi":
         return rng.uniform(0.5, 3.0)
     if p == "alpha":
-        return rng.uniform(0.0, 0.2)
+        return rng.uniform(0.0, 0.2) if rng.random() < 0.8 else rng.uniform(-0.2, -0.02)
     raise KeyError(p)
 
 
@@ -164,6 +167,13 @@ def sample_point(var, rng, mode):
             vals[p] = [sample_value(p, rng, mode, ctx) for _ in range(veclen(var, p))]
         elif t == "S" or (t == "OS" and p in var["present"]):
             vals[p] = sample_value(p, rng, mode, ctx)
+    if var["name"] == "get_mainstream_flow" and rng.random() < 0.25:
+        # an exponent below one, the limited speed at and just below the critical speed e^(-1/a) v_free - where the
+        # speed-limited flow x (-a ln x)^(1/a) is largest and meets the capacity flow -, demand to spare
+        vals["a"] = rng.uniform(0.5, 0.95)
+        vals["v_ctrl"] = vals["v_free"] * math.exp(-1.0 / vals["a"]) * rng.choice([1.0, 0.97, 0.9, 0.8, 0.6])
+        vals["v_first"] = vals["v_free"]
+        vals["d"] = 1e4
     return vals
 
 
